@@ -31,6 +31,9 @@ pub enum Ev {
     Note(&'static str),
 }
 
+/// Global sequence number of the next log entry (readable from the allocator spy without TLS).
+pub static SEQ: std::sync::atomic::AtomicU64 = std::sync::atomic::AtomicU64::new(0);
+
 thread_local! {
     static ENABLED: RefCell<bool> = const { RefCell::new(false) };
     static LOG: RefCell<Vec<Ev>> = const { RefCell::new(Vec::new()) };
@@ -39,6 +42,7 @@ thread_local! {
 pub fn enable(on: bool) {
     ENABLED.with(|e| *e.borrow_mut() = on);
     LOG.with(|l| l.borrow_mut().clear());
+    SEQ.store(0, std::sync::atomic::Ordering::Relaxed);
 }
 pub fn log(ev: Ev) {
     let on = ENABLED.with(|e| *e.borrow());
@@ -46,12 +50,14 @@ pub fn log(ev: Ev) {
         LOG.with(|l| {
             let mut l = l.borrow_mut();
             if l.len() < 1_000_000 {
-                l.push(ev)
+                l.push(ev);
+                SEQ.store(l.len() as u64, std::sync::atomic::Ordering::Relaxed);
             }
         });
     }
 }
 pub fn take() -> Vec<Ev> {
+    SEQ.store(0, std::sync::atomic::Ordering::Relaxed);
     LOG.with(|l| std::mem::take(&mut *l.borrow_mut()))
 }
 pub fn len() -> usize {
